@@ -6,6 +6,7 @@ package main
 
 import (
 	"bytes"
+	"encoding/binary"
 	"encoding/json"
 	"fmt"
 	"os"
@@ -15,6 +16,7 @@ import (
 	"github.com/nspcc-dev/neo-go/pkg/core/block"
 	"github.com/nspcc-dev/neo-go/pkg/core/mpt"
 	"github.com/nspcc-dev/neo-go/pkg/core/statesync"
+	"github.com/nspcc-dev/neo-go/pkg/core/storage"
 	"github.com/nspcc-dev/neo-go/pkg/core/transaction"
 	"github.com/nspcc-dev/neo-go/pkg/crypto/hash"
 	"github.com/nspcc-dev/neo-go/pkg/io"
@@ -28,7 +30,7 @@ type c20SrcParams struct {
 }
 
 type c20SOp struct {
-	Op  string `json:"op"`            // hdr | nodes | req | restart | bad | blk | badblk
+	Op  string `json:"op"`            // hdr | nodes | req | restart | bad | blk | badblk | twin
 	To  uint32 `json:"to,omitempty"`  // hdr: deliver headers up to this index
 	IDs []int  `json:"ids,omitempty"` // nodes: node ids (first-visit pre-order of the source trie)
 	Max int    `json:"max,omitempty"` // req: at most this many of the requested nodes (0 = all) ...
@@ -74,20 +76,22 @@ func c20GetSource(p c20SrcParams) *c20Source {
 }
 
 type c20Sync struct {
-	src    *c20Source
-	in     c20SInput
-	P      uint32
-	root   util.Uint256
-	nodes  []c20Node
-	idOf   map[util.Uint256]int
-	bolt   *c20Bolt
-	mod    *statesync.Module
-	impl   c20SImpl
-	viol   []string // direct violations (note)
-	dead   bool
-	inline bool     // an inline-child node was accepted
-	badq   []c20SOp // wrong blocks to offer in the blocks stage, one per block of the window, before the genuine one
-	blkObs []string // what happened to them, in model terms
+	src           *c20Source
+	in            c20SInput
+	P             uint32
+	root          util.Uint256
+	nodes         []c20Node
+	idOf          map[util.Uint256]int
+	bolt          *c20Bolt
+	mod           *statesync.Module
+	impl          c20SImpl
+	viol          []string // direct violations (note)
+	dead          bool
+	inline        bool // an inline-child node was accepted
+	twinsStored   int
+	countsChecked bool
+	badq          []c20SOp // wrong blocks to offer in the blocks stage, one per block of the window, before the genuine one
+	blkObs        []string // what happened to them, in model terms
 }
 
 func (c *c20Sync) violate(f string, a ...any) {
@@ -389,6 +393,8 @@ func (c *c20Sync) run() {
 			c.restart()
 		case "bad":
 			c.bad(op)
+		case "twin":
+			c.twin(op)
 		case "badblk":
 			c.badq = append(c.badq, op)
 		case "blk":
@@ -456,6 +462,10 @@ func (c *c20Sync) finish() {
 			c.violate("AddMPTNodes refuses requested canonical nodes of the source trie")
 			return
 		}
+	}
+	if c.mod.IsActive() && !c.inline && !c.countsChecked {
+		c.countsChecked = true
+		c.checkCounts()
 	}
 	if c.mod.IsActive() {
 		if !c.mod.NeedBlocks() {
@@ -611,6 +621,13 @@ func c20GenSync(r *rng, src c20SrcParams, thorough bool) c20SInput {
 		}
 	}
 	add(c20SOp{Op: "hdr", To: uint32(src.Height)})
+	// a node that sits at several paths, stored before its children, then a restart
+	if r.chance(45) {
+		add(c20SOp{Op: "twin", ID: r.intn(64), X: pick(r, []int{0, 0, 1, 0, 2, 3})})
+		if r.chance(40) {
+			add(c20SOp{Op: "twin", ID: r.intn(64), X: r.intn(2)})
+		}
+	}
 	// MPT stage
 	n := 4 + r.intn(16)
 	if thorough {
@@ -672,6 +689,9 @@ func c20RunSyncCase(co *caseOut, raw json.RawMessage) error {
 	tag := fmt.Sprintf("n%d", min(c.impl.Nodes/50*50, 300))
 	if c.impl.Restarts > 0 {
 		tag += "+restart"
+	}
+	if c.twinsStored > 0 {
+		tag += "+twin"
 	}
 	if c.impl.Inline > 0 {
 		tag += "+inline"
@@ -824,4 +844,122 @@ func (c *c20Sync) badBlock(i uint32, op c20SOp) bool {
 		return false
 	}
 	return true
+}
+
+// number of occurrences (paths) of every node of the source trie
+func (c *c20Sync) occurrences() []int {
+	occ := make([]int, len(c.nodes))
+	indeg := make([]int, len(c.nodes))
+	for _, n := range c.nodes {
+		for _, k := range n.kids {
+			indeg[c.idOf[k]]++
+		}
+	}
+	occ[0] = 1
+	var queue []int
+	for i := range c.nodes {
+		if indeg[i] == 0 {
+			queue = append(queue, i)
+		}
+	}
+	for len(queue) > 0 {
+		i := queue[0]
+		queue = queue[1:]
+		for _, k := range c.nodes[i].kids {
+			j := c.idOf[k]
+			occ[j] += occ[i]
+			if indeg[j]--; indeg[j] == 0 {
+				queue = append(queue, j)
+			}
+		}
+	}
+	return occ
+}
+
+// "twin": store a node that sits at several paths and has children, one node per AddMPTNodes call, top-down, its children
+// last; restart right after it is stored (X&1: every delivery duplicated; X&2: a restart after EVERY single node)
+func (c *c20Sync) twin(op c20SOp) {
+	if c.dead || !c.mod.NeedStorageData() {
+		return
+	}
+	occ := c.occurrences()
+	var twins []int
+	for i, n := range c.nodes {
+		if occ[i] >= 2 && len(n.kids) > 0 {
+			twins = append(twins, i)
+		}
+	}
+	if len(twins) == 0 {
+		return
+	}
+	t := twins[op.ID%len(twins)]
+	anc := map[int]bool{}
+	parents := map[int][]int{}
+	for i, n := range c.nodes {
+		for _, k := range n.kids {
+			parents[c.idOf[k]] = append(parents[c.idOf[k]], i)
+		}
+	}
+	var up func(i int)
+	up = func(i int) {
+		for _, p := range parents[i] {
+			if !anc[p] {
+				anc[p] = true
+				up(p)
+			}
+		}
+	}
+	up(t)
+	deliver := func(id int) {
+		b, term := c.nodeItem(id)
+		c.addNodes([][]byte{b}, []string{term}, false, "single node")
+		if op.X&1 != 0 {
+			c.addNodes([][]byte{b}, []string{term}, false, "single node again")
+		}
+		if op.X&2 != 0 {
+			c.restart()
+		}
+	}
+	for guard := 0; guard < len(c.nodes)+2 && !c.dead && c.mod.NeedStorageData(); guard++ {
+		progress := false
+		for _, u := range c.unknown() {
+			if u < len(c.nodes) && anc[u] {
+				deliver(u)
+				progress = true
+				break
+			}
+		}
+		if !progress {
+			break
+		}
+	}
+	if c.dead || !c.mod.NeedStorageData() {
+		return
+	}
+	for _, u := range c.unknown() {
+		if u == t {
+			deliver(t)
+			c.twinsStored++
+			if !c.dead {
+				c.restart() // the twin is stored at all its paths, none of its children is
+			}
+			return
+		}
+	}
+}
+
+// reference counts in the database right after the MPT stage completes = occurrences in the trie
+func (c *c20Sync) checkCounts() {
+	occ := c.occurrences()
+	for i, n := range c.nodes {
+		v, err := c.bolt.st.Get(append([]byte{byte(storage.DataMPT)}, n.h[:]...))
+		cnt := -1
+		if err == nil && len(v) >= 4 {
+			cnt = int(binary.LittleEndian.Uint32(v[len(v)-4:]))
+		}
+		if cnt != occ[i] {
+			c.violate("reference count of a restored trie node differs from the number of paths it occurs at (node %d: %d paths at the sync point, stored count %d)", i, occ[i], cnt)
+			return
+		}
+	}
 }
